@@ -79,6 +79,26 @@ def handle (j : Json) : Except String Json := do
       | some e => e.2
       | none => none
     pure (okJson [("res", toJson (checksMilestones posOf box p drs))])
+  | "accept" =>
+    -- one trial of `RandomWalk.update_positions`: last point, trial step, the restraints of the residue
+    let box ← v3 (← j.getObjVal? "box")
+    let last ← v3 (← j.getObjVal? "last")
+    let step ← v3 (← j.getObjVal? "step")
+    let rs ← regionsOf (← j.getObjVal? "regions")
+    let o ← optOf (← j.getObjVal? "opt")
+    let drs ← (← (← j.getObjVal? "drs").getArr?).toList.mapM drestrOf
+    let pos ← (← (← j.getObjVal? "pos").getArr?).toList.mapM fun e => do
+      let k ← (← e.getArrVal? 0).getNat?
+      let q ← match (← e.getArrVal? 1) with
+        | .null => pure none
+        | q => (v3 q).map some
+      pure (k, q)
+    let posOf : Nat → Option V3 := fun k => match pos.find? (fun e => e.1 == k) with
+      | some e => e.2
+      | none => none
+    let np := wrapV (last.add step) box
+    pure (okJson [("res", toJson (acceptStep rs drs o posOf box last step true false)),
+                  ("point", Json.arr #[ratToJson np.x, ratToJson np.y, ratToJson np.z])])
   | "tree" =>
     let flag ← (← j.getObjVal? "dfs").getBool?
     let g ← adjOf (← j.getObjVal? "adj")
